@@ -1,6 +1,7 @@
 import RactorModel.Lemmas.FactoryRouters
 import RactorModel.Lemmas.FactoryAffinity
 import RactorModel.Lemmas.FactoryQueuer
+import RactorModel.Lemmas.FactorySlotInst
 
 /-!
 # C14 — Factory routing keeps its promises about where a job runs
@@ -110,6 +111,35 @@ theorem kp_routes_to_holder (w : W) (j : Job) (hint : Option Nat) (p0 : WP) (hr 
   unfold W.chooseTargetWorker
   simp only [hr, hf]
 
+/-- (one at a time, the factory's side) for every router and EVERY sequence of operations —
+stale completions included — every slot has at most one job in flight (`curr_jobs`): the factory
+hands a worker its next job only when the previous one is no longer booked as in flight. -/
+theorem one_job_in_flight_per_slot (c : CaseCfg) (steps : List Step) :
+    ∀ p ∈ ((init c).runSteps steps).pool, p.curr.length ≤ 1 :=
+  fun p hp => (slot_always slotOk_inv c steps p hp).one
+
+/-- `pending_key_counts` is exact: for every slot and key it counts the jobs of that key queued
+for the slot plus the one in flight — after every sequence of operations (expiry, shedding,
+completion, replacement included). -/
+theorem pending_tracks_jobs (c : CaseCfg) (steps : List Step) :
+    ∀ p ∈ ((init c).runSteps steps).pool, ∀ k,
+      p.pending.count k = (keysCurr p).count k + (keysMq p).count k :=
+  fun p hp => (slot_always slotOk_inv c steps p hp).tracks
+
+/-- (affinity in terms of jobs) with key-persistent routing, jobs of one key — queued for a slot
+or booked as in flight on it — are never spread over two slots. -/
+theorem affinity_jobs_partial (c : CaseCfg) (hr : c.cfg.router = .kp) (steps : List Step) (k : Nat) (p1 p2 : WP)
+    (h1 : p1 ∈ ((init c).runSteps steps).pool) (h2 : p2 ∈ ((init c).runSteps steps).pool)
+    (hk1 : k ∈ keysCurr p1 ++ keysMq p1) (hk2 : k ∈ keysCurr p2 ++ keysMq p2) : p1 = p2 := by
+  have t1 := pending_tracks_jobs c steps p1 h1 k
+  have t2 := pending_tracks_jobs c steps p2 h2 k
+  have c1 : 0 < (keysCurr p1 ++ keysMq p1).count k := List.count_pos_iff.mpr hk1
+  have c2 : 0 < (keysCurr p2 ++ keysMq p2).count k := List.count_pos_iff.mpr hk2
+  rw [List.count_append] at c1 c2
+  apply affinity_unique_slot c hr steps k p1 p2 h1 h2
+  · rw [hasPending_iff]; exact List.count_pos_iff.mp (by omega)
+  · rw [hasPending_iff]; exact List.count_pos_iff.mp (by omega)
+
 /-! ## Queuer routing never idles a worker while a job waits -/
 
 /-- (queuer) With queuer routing (no rate limiter in front of it), for every configuration and
@@ -133,6 +163,31 @@ theorem queuer_deque_sound (c : CaseCfg) (hr : c.cfg.router = .q) (hrl : c.rl = 
   have d := (qd_runSteps (init c) steps (qd_init c hr hrl)).d
   have h1 := d.d1 p hp (by simp) ha
   exact ⟨h1, d.sub _ h1⟩
+
+/-! ## One job at a time -/
+
+/-- (one at a time) a worker actor that is handling a job does not start another one: its task
+takes the next message only when no handler is running (this is the actor framework's C01, which
+the model takes as given: `running : Option Job`). Whatever the factory sends meanwhile waits in
+the actor's mailbox. -/
+theorem busy_worker_starts_nothing (e : Env) (aid : Nat) (a : Actor) (j : Job)
+    (ha : e.getActor aid = some a) (hr : a.running = some j) : e.settleOne aid = e := by
+  unfold Env.settleOne
+  simp [ha, hr]
+
+/-- … and a hand-over to a busy worker only lengthens its mailbox -/
+theorem cast_to_busy_queues (e e' : Env) (aid : Nat) (j : Job) (h : e.cast aid j = some e') :
+    e'.log = e.log ∧ ∃ a, e.getActor aid = some a ∧ a.alive = true := by
+  unfold Env.cast at h
+  cases ha : e.getActor aid with
+  | none => simp [ha] at h
+  | some a =>
+    simp only [ha] at h
+    split at h
+    · simp at h
+    · rename_i hal
+      simp only [Option.some.injEq] at h; subst h
+      exact ⟨rfl, a, rfl, by simpa using hal⟩
 
 /-! ### Findings on their concrete witnesses (the model replays them exactly: DIFF = 0 on every run)
 
@@ -202,5 +257,10 @@ end C14
 #print axioms C14.affinity_partial
 #print axioms C14.affinity_unique_slot
 #print axioms C14.kp_routes_to_holder
+#print axioms C14.one_job_in_flight_per_slot
+#print axioms C14.pending_tracks_jobs
+#print axioms C14.affinity_jobs_partial
 #print axioms C14.queuer_never_idles
 #print axioms C14.queuer_deque_sound
+#print axioms C14.busy_worker_starts_nothing
+#print axioms C14.cast_to_busy_queues
